@@ -16,10 +16,11 @@ R2  guarded key reads (T-GUARD): a subscript read m[Species.K] of a species map
     `.keys()`, `for k, v in m.items()`, also inside list()/sorted(), statement
     or comprehension) or the keys of a mapping for whose every key an earlier
     loop stored into m.
-R3  switched-off species stay out: every store indices[Species.K] = … in the
-    trajectory and LTO producers is control-dependent (in the function or at
-    all its call sites) on a fact implying K's switch is on, or stores a
-    literal zero.  A store under a variable key needs `key in enabled_species`,
+R3  switched-off species stay out: every store m[Species.K] = … into an index
+    map handed back by the trajectory / LTO producer or by a function of the
+    same module reachable from it (found through the call graph, not by name)
+    is control-dependent (in the function or at all its call sites) on a fact
+    implying K's switch is on, or stores a literal zero.  A store under a variable key needs `key in enabled_species`,
     or a key that is already in the map (the value reads the map at that key,
     or the key walks the map's own keys), or a key that walks the result of a
     helper which itself inserts every species only under its switch.
@@ -47,13 +48,46 @@ from ..astutil import first_stmt, last_stmt  # noqa: F401
 from ..astutil import (ancestors, call_name, calls_in, conjuncts, enclosing_iterations, guards_of, iterated_mapping, map_iteration,
                        names_in, norm, single_def_value, stmt_of, stores_to, walk_no_nested)
 from ..loader import ClassInfo, FunctionInfo
-from ..resolve import callers_of, expr_class, resolve_call
+from ..resolve import callers_of, closure, expr_class, resolve_call
 
 CFGE = 'config/emissions.py'
-PRODUCERS = {
-    'emissions/trajectory.py': ['get_trajectory_emissions', 'compute_EI_NOx', '_calculate_EI_PMvol', '_calculate_EI_PMnvol'],
-    'emissions/lto.py': ['get_LTO_emissions', '_lto_nox', '_lto_pmvol', '_lto_pmnvol'],
+# entry points of the two per-flight producers; the functions that build (parts of) their index maps are found
+# through the call graph, not by name (a helper may be split off, merged back or renamed)
+PRODUCER_ENTRIES = {
+    'emissions/trajectory.py': 'get_trajectory_emissions',
+    'emissions/lto.py': 'get_LTO_emissions',
 }
+
+
+def _index_maps(fi) -> set[str]:
+    """names of the local species maps fi hands back: `return m`, or the index argument of the EmissionsSubset it returns"""
+    out = set()
+    for r in walk_no_nested(fi.node):
+        if isinstance(r, ast.Return) and r.value is not None:
+            v = r.value
+            if isinstance(v, ast.Name):
+                out.add(v.id)
+            elif isinstance(v, ast.Call) and call_name(v).split('[')[0] == 'EmissionsSubset':
+                a = next((k.value for k in v.keywords if k.arg == 'indices'), v.args[0] if v.args else None)
+                if isinstance(a, ast.Name):
+                    out.add(a.id)
+    return out - set(fi.params)
+
+
+def _producers(prog, rel):
+    """the entry producer of module rel and every function of the same module reachable from it that writes
+    `m[Species.K] = …` into a species map it returns: [(function, names of its index maps)]"""
+    m = prog.module(rel)
+    entry = m.func(PRODUCER_ENTRIES[rel])
+    out = [(entry, _index_maps(entry))]
+    for g in sorted(closure(prog, [entry]), key=lambda f: f.node.lineno):
+        if g is entry or g.module is not m:
+            continue
+        maps = _index_maps(g)
+        if any(isinstance(t, ast.Subscript) and norm(t.value) in maps and isinstance(t.slice, ast.Attribute)
+               and norm(t.slice.value) == 'Species' for t, _, _ in stores_to(g.node)):
+            out.append((g, maps))
+    return out
 READ_SCOPE = ['emissions/emission.py', 'emissions/trajectory.py', 'emissions/lto.py', 'emissions/apu.py', 'emissions/gse.py']
 
 
@@ -698,8 +732,8 @@ def _only_enabled_keys(prog, fi, it: ast.AST, groups) -> str | None:
     if not isinstance(m, ast.Call):
         return None
     callee = resolve_call(prog, fi, m)
-    if callee is None:
-        return None
+    if callee is None or callee.node.decorator_list:
+        return None     # a decorated (e.g. memoised) helper answers for the configuration of an earlier call
     rets = [r.value for r in walk_no_nested(callee.node) if isinstance(r, ast.Return)]
     if not rets or not all(isinstance(r, ast.Name) for r in rets) or len({r.id for r in rets}) != 1:
         return None
@@ -732,13 +766,14 @@ def _only_enabled_keys(prog, fi, it: ast.AST, groups) -> str | None:
 def rule_stores(ctx, groups):
     prog = ctx.prog
     n = 0
-    for rel, names in PRODUCERS.items():
-        m = prog.module(rel)
-        for name in names:
-            fi = m.func(name)
+    n_fn = 0
+    for rel in PRODUCER_ENTRIES:
+        for fi, maps in _producers(prog, rel):
+            n_fn += 1
+            name = fi.name
             call_facts = None
             cs = callers_of(prog, fi)
-            if cs and not name.startswith('get_'):
+            if cs and name != PRODUCER_ENTRIES[rel]:
                 sets = []
                 for caller, call in cs:
                     if caller.file.startswith('src/AEIC/emissions'):
@@ -746,7 +781,7 @@ def rule_stores(ctx, groups):
                 call_facts = sets
             for t, st, how in stores_to(fi.node):
                 targets = [t]
-                if not (isinstance(t, ast.Subscript) and norm(t.value) in ('indices', 'lto_indices')):
+                if not (isinstance(t, ast.Subscript) and norm(t.value) in maps):
                     continue
                 key = t.slice
                 if isinstance(key, ast.Attribute) and norm(key.value) == 'Species':
@@ -796,6 +831,7 @@ def rule_stores(ctx, groups):
                        f'implied on: `{g}` ({where})' if g else
                        (f'Species.{K} is written into the {rel.split("/")[-1][:-3]} indices without any guard implying '
                         f'its switch is on: a switched-off species shows up in the inventory'), line=st.lineno)
+    ctx.floor('C11-R3/producers', n_fn, 2, 'functions that build the trajectory and LTO index maps')
     ctx.floor('C11-R3', n, 18, 'species stores in trajectory and LTO producers')
 
 
